@@ -16,6 +16,7 @@
 #include <dirent.h>
 #include <sys/stat.h>
 #include <unistd.h>
+#include <signal.h>
 
 extern "C" int LLVMFuzzerTestOneInput(const uint8_t *data, size_t size);
 extern "C" __attribute__((weak)) size_t vfresh_max(void);
@@ -25,10 +26,19 @@ static uint64_t sm64(uint64_t &s) { s += 0x9E3779B97F4A7C15ull; uint64_t z = s; 
 static bool read_file(const std::string &p, std::vector<uint8_t> &v) { FILE *f = fopen(p.c_str(), "rb"); if (!f) return false; v.clear(); uint8_t b[4096]; size_t n; while ((n = fread(b, 1, sizeof b, f)) > 0) v.insert(v.end(), b, b + n); fclose(f); return true; }
 
 static std::string g_cur;
+static unsigned g_timeout = 60;
+// a case that does not return within the time limit (deadlock, lost wake-up, unbounded loop): say so and leave the
+// reproducer (crash-current file) behind.  The orchestrator replays it three times before it believes it.
+static void on_alarm(int) {
+	static const char m[] = "\n=== VERIF-VIOLATION property=NA signature=hang:case-did-not-return-within-time-limit\n=== reason: the case did not return within the per-case time limit of the plain driver (deadlock / lost wake-up / unbounded loop)\n";
+	ssize_t r = write(2, m, sizeof m - 1); (void)r; _exit(86);
+}
 static void run_one(const std::vector<uint8_t> &in) {
 	if (!g_cur.empty()) { FILE *f = fopen(g_cur.c_str(), "wb"); if (f) { if (!in.empty()) fwrite(in.data(), 1, in.size(), f); fclose(f); } }
 	static uint8_t z[1];
+	alarm(g_timeout);
 	LLVMFuzzerTestOneInput(in.empty() ? z : in.data(), in.size());
+	alarm(0);
 	if (!g_cur.empty()) unlink(g_cur.c_str());
 }
 
@@ -36,8 +46,9 @@ int main(int argc, char **argv) {
 	long runs = -1; uint64_t seed = 1; size_t max_len = 256; std::string prefix; std::vector<std::string> paths;
 	for (int i = 1; i < argc; ++i) { std::string a = argv[i];
 		if (a.compare(0, 6, "-runs=") == 0) runs = atol(a.c_str() + 6); else if (a.compare(0, 6, "-seed=") == 0) seed = strtoull(a.c_str() + 6, NULL, 10);
-		else if (a.compare(0, 9, "-max_len=") == 0) max_len = (size_t)atol(a.c_str() + 9); else if (a.compare(0, 17, "-artifact_prefix=") == 0) prefix = a.substr(17);
+		else if (a.compare(0, 9, "-max_len=") == 0) max_len = (size_t)atol(a.c_str() + 9); else if (a.compare(0, 17, "-artifact_prefix=") == 0) prefix = a.substr(17); else if (a.compare(0, 9, "-timeout=") == 0) g_timeout = (unsigned)atoi(a.c_str() + 9);
 		else if (a[0] == '-') continue; else paths.push_back(a); }
+	signal(SIGALRM, on_alarm);
 	std::vector<std::vector<uint8_t>> corpus; bool replay_only = false;
 	for (auto &p : paths) { struct stat st; if (stat(p.c_str(), &st) != 0) continue;
 		if (S_ISDIR(st.st_mode)) { DIR *d = opendir(p.c_str()); if (!d) continue; std::vector<std::string> names; while (struct dirent *e = readdir(d)) if (e->d_name[0] != '.') names.push_back(e->d_name); closedir(d);
